@@ -88,14 +88,14 @@ class C10(Prop):
                 if kind == "nan":
                     row = [None if rng.random() < .25 else x for x in row]
                 Vp.append(row)
-            if sum(x for row in Vp for x in row if x is not None) <= 0:
-                continue
             if kind == "ints" and i % 3 == 2 and m >= 2:      # two alternatives with the same total, distributed differently over the voters
                 a, b = rng.sample(range(m), 2); col = [row[a] for row in Vp]; rng.shuffle(col)
                 for row, x in zip(Vp, col): row[b] = x
             if kind == "ints" and i % 3 == 1:      # the same utilities in another unit, down to the subnormals and up to the top of the range (exact powers of two): shares do not change
                 u = 2.0 ** [-1070, -1074, -1040, -300, 1000, -1060][(i // 3) % 6]
                 Vp = [[x * u for x in row] for row in Vp]; kind = "ints_unit"
+            if sum(x for row in Vp for x in row if x is not None) <= 0:      # (total utility must be positive: the share is undefined otherwise)
+                continue
             yield dict(entry="SocialWelfare.%s" % ("score" if i % 2 else "scf"), family="util_" + kind, rule="SocialWelfare",
                        method=("score" if i % 2 else "scf"), V=Vp, zi=bool(i % 3 == 0), tb=V.TBS[i % 3], k=1)
 
